@@ -55,7 +55,13 @@ class C09(Prop):
                "for the literals at hand are computed on the real code and passed as data",
                "ast.literal_eval of a QUOTED_STRING token as modelled by Mk.pyStrLit (escape decoding; \\N{...} not modelled)",
                "hash() as an uninterpreted function of (class name, str)"]
-    partial = []
+    partial = ["format_parses_back / format_preserves_grouping / literal_preserved are proved for the parser run on the token "
+               "sequence of _format_marker (str_is_spelled_tokens: str = that sequence spelled with single spaces); that the "
+               "character-level tokenizer recovers these tokens from the spelling is proved only for literals "
+               "(literal_quote_safe) and otherwise tied by the correspondence (mk.rt re-parses str) and kernel-evaluated examples",
+               "Requirement(s).marker == Marker(s) is a law on the real code only (the requirement parser is C08's model)",
+               "literals containing a backslash are outside the PEP 508 string alphabet: literal_eval's escape processing is "
+               "modelled and corresponds, but such literals do not round-trip (str does not re-escape) and no theorem covers them"]
     budget = {"quick": (3000, 2500), "thorough": (60000, 50000)}
 
     # ---- correspondence
@@ -188,6 +194,8 @@ class C09(Prop):
                     raise RuntimeError("renderer and reference parser disagree")
             except (G.OutOfDomain, G.Reject) as e:
                 return True, f"outside the law's domain: {e}"
+            if not G.one_variable_atoms(intended):
+                return True, "outside the law's domain: a comparison of two variables / two literals"
             return roundtrip(s, intended)
         if law == "eq_under_respelling":
             try:
@@ -290,6 +298,8 @@ def eq_texts(a, b):
         return True, f"outside the law's domain: {e}"
     if G.grouping_form(ta) != G.grouping_form(tb):
         return True, "outside the law's domain: the two texts differ in more than spelling"
+    if not G.one_variable_atoms(ta):
+        return True, "outside the law's domain: a comparison of two variables / two literals"
     try:
         ma, mb = markers.Marker(a), markers.Marker(b)
     except Exception as e:
